@@ -187,6 +187,32 @@ def run(ctx):
                                       {'routine': 'multi_color', 'what': 'reconstruction_vs_fresh', 'aperture': apk})
                 except Exception as e:
                     ctx.note('fresh propagator could not re-propagate the returned hologram: %r' % (e,))
+    # ---- results stay what they were: two optimisations share ONE propagator (two targets, collected and verified at the end); the pair returned by the
+    # first run must still be a hologram and its own reconstruction after the second run
+    for (h, w) in ((32, 32), (33, 35)):
+        torch.manual_seed(rng.randrange(10 ** 6))
+        wl = [0.6, 0.5, 0.45]
+        shared = LW.propagator(resolution=[h, w], wavelengths=wl, pixel_pitch=dx, number_of_frames=3, number_of_depth_layers=2, volume_depth=2.0,
+                               image_location_offset=1.0, propagation_type='Bandlimited Angular Spectrum', propagator_type='forward', device=torch.device('cpu'))
+        kept = []
+        ctx.case(('shared_propagator', h, w), True)
+        ctx.count('multi_color/two_runs_on_one_propagator')
+        try:
+            for run_i in range(2):
+                opt = LW.multi_color_hologram_optimizer(wavelengths=wl, resolution=[h, w], targets=torch.rand(2, 3, h, w), propagator=shared, number_of_frames=3,
+                                                       number_of_depth_layers=2, learning_rate=0.02, device=torch.device('cpu'))
+                ph, rc, _, _, _ = opt.optimize(number_of_iterations=1, weights=[1., 1., 1., 0.], bits=8)
+                kept.append((ph, rc, ph.detach().clone(), rc.detach().clone()))
+        except Exception as e:
+            ctx.note('two runs on one propagator raised %r' % (e,))
+            continue
+        for run_i, (ph, rc, ph0, rc0) in enumerate(kept):
+            if not torch.equal(ph.detach(), ph0) or not torch.allclose(rc.detach(), rc0, atol=0, rtol=0):
+                ctx.violation('multi_color optimiser: the hologram / reconstruction returned by run %d changed after a later run on the same propagator '
+                              '(max change %.3g): the returned tensors alias internal buffers' % (run_i, float((rc.detach() - rc0).abs().max())),
+                              {'routine': 'multi_color_hologram_optimizer', 'h': h, 'w': w, 'run': run_i}, {'routine': 'multi_color', 'what': 'result_changed_later'})
+                break
+
     if ctx.drv_ok:
         vals = [rng.uniform(-20, 20) for _ in range(200)] + [0.0, 6.283185307179586, 1e-9]
         for bits in (2, 8):
